@@ -25,6 +25,20 @@ class multi_config_build_graph:
     }
 
 
+@contract("nanoemoji.nanoemoji._run", props=["C20"])
+class multi_config_same_basename:
+    bounded_only = True
+    gen = G.gen_same_basename
+    native_call = G.run_driver_n
+    n_quick = 6
+    n_thorough = 60
+    ensures = {
+        # two to four configurations, each with its own file of one basename in its own
+        # directory: every configuration's glyph map is built from its own sources
+        "each-configuration-builds-from-its-own-sources": lambda cfgs, result: G.own_source_problems(cfgs, result) == [],
+    }
+
+
 @contract("nanoemoji.nanoemoji._run", props=["C20", "C14"])
 class cli_bitmap_resolution:
     bounded_only = True
